@@ -349,7 +349,10 @@ def scenarios(prop, tier, seed):
         pads = [300, "none", 4096] if thorough else [300]
         for k in kinds:
             for pd in pads:
-                out.append(("update", [pd, 3000, k]))
+                # 3000 PCM frames: the rebuilt file exceeds a BufWriter's 8 KiB; 300: it fits into one
+                # (whatever a buffering sink holds back is only written when it is dropped)
+                for n in (3000, 300):
+                    out.append(("update", [pd, n, k]))
         fronts = ["sample", "byte", "channel", "sample_fill"] if thorough else ["sample", "byte"]
         for s in seeds[: (40 if thorough else 2)]:
             for f in fronts:
@@ -367,7 +370,8 @@ def scenarios(prop, tier, seed):
         pads = [300, "none", 4096, 12, 0] if thorough else [300, "none"]
         for k in kinds:
             for pd in pads:
-                out.append(("update", [pd, 3000, k]))
+                for n in (3000, 300):
+                    out.append(("update", [pd, n, k]))
     return out
 
 
